@@ -296,11 +296,23 @@ def _pipeline_case(args):
             ta = {'normalization': 'raw', 'bootstrap_iteration': prng.randint(3, 12), 'bootstrap_factor': prng.choice([0.5, 0.7, 0.9]),
                   'rng_seed': prng.randint(0, 999), 'chunk_size': prng.randint(3, 11), 'n_runners_up': prng.randint(0, 3)}
             (d / 'staged').mkdir()
+            # variant of the run: plain, a level dropped in every stage, or flattened
+            variant = prng.choice(['plain', 'drop', 'flatten'])
+            dl = 'subclass' if variant == 'drop' else None
+            fl = variant == 'flatten'
+            (d / 'staged' / 'refm').mkdir()
+            ReferenceMarkerRunner(args=[], input_data={
+                'precomputed_path_list': [tp['stats']], 'output_dir': str(d / 'staged' / 'refm'), 'tmp_dir': str(d / 'scratch'),
+                'n_processors': P, 'query_path': query, 'n_valid': 3, 'max_gb': 1, 'drop_level': dl}).run()
+            QueryMarkerRunner(args=[], input_data={
+                'query_path': query, 'reference_marker_path_list': [str(d / 'staged' / 'refm' / 'reference_markers.h5')],
+                'output_path': str(d / 'staged' / 'qm.json'), 'n_per_utility': 2, 'n_processors': P,
+                'tmp_dir': str(d / 'scratch'), 'drop_level': dl}).run()
             FromSpecifiedMarkersRunner(args=[], input_data={
                 'query_path': query, 'extended_result_path': str(d / 'staged' / 'res.json'),
                 'csv_result_path': str(d / 'staged' / 'res.csv'), 'tmp_dir': str(d / 'scratch'),
-                'precomputed_stats': {'path': tp['stats']}, 'query_markers': {'serialized_lookup': str(qm_path)},
-                'type_assignment': dict(ta, n_processors=P), 'max_gb': 1}).run()
+                'precomputed_stats': {'path': tp['stats']}, 'query_markers': {'serialized_lookup': str(d / 'staged' / 'qm.json')},
+                'type_assignment': dict(ta, n_processors=P), 'max_gb': 1, 'drop_level': dl, 'flatten': fl}).run()
             staged = json.load(open(d / 'staged' / 'res.json'))
             faults = ['none', 'none'] + ([prng.choice(['refmarkers', 'qmarkers', 'mapping'])] if quick
                                          else ['refmarkers', 'qmarkers', 'mapping'])
@@ -333,10 +345,11 @@ def _pipeline_case(args):
                 cfg = {'query_path': q, 'extended_result_path': str(run_d / 'out' / 'res.json'),
                        'csv_result_path': str(run_d / 'out' / 'res.csv'), 'tmp_dir': str(run_d / 'tmp'),
                        'precomputed_stats': {'path': stats}, 'n_processors': P, 'cloud_safe': cloud, 'max_gb': 1,
+                       'drop_level': dl, 'flatten': fl,
                        'type_assignment': dict(ta), 'query_markers': {'n_per_utility': 2},
                        'reference_markers': {'n_valid': 3}}
                 rec = {'kind': 'otf', 'failat': fault, 'ok': True, 'left': [], 'outputs': [], 'config': 'none', 'same': True,
-                       'clean': True, 'seed': seed}
+                       'clean': True, 'seed': seed, 'variant': variant}
                 try:
                     OnTheFlyMapper(args=[], input_data=cfg).run()
                 except Exception as e:                    # noqa
